@@ -35,7 +35,9 @@ DATASET_ORDER_IS_STATE = True    # RemoveData.undo re-appends at the end; set Fa
 RULE = ("cases are (set-up, history) pairs: set-up = one of 5 session states (empty / data only / one edited group / two groups, "
         "one edited, AND mode / two groups both edited, OR mode); history = tokens over do(AddData|RemoveData|ApplySubsetState with "
         "10 states x {no override, replace, and, or, xor, andnot, new}|ApplyROI with 4 ROIs) / undo / redo / set mode / set edit "
-        "subset; all histories up to a length bound over a 12-token alphabet are enumerated, random ones up to length 30, and runs "
+        "subset; all histories up to a length bound over a 12-token alphabet are enumerated, random ones up to length 30, walk-shaped "
+        "ones (every 2-/3-command prefix over 9 commands followed by undo..redo..undo patterns that walk the whole stack down, up and "
+        "down again, plus random walks of 2-6 commands and 3-6 phases), and runs "
         "of more than MAX_UNDO commands followed by undo until the stack is empty. Every undo/redo is one comparison. A history is "
         "non-trivial when at least one compared undo/redo belonged to a command that changed the snapshot; distinct = distinct "
         "(set-up, history) fingerprints.")
@@ -266,6 +268,7 @@ class World:
                     self.flags.add("redo_after_undo")
                 self.compare(op, ent, before, after)
                 if op == "redo":
+                    ent["redone"] = ent.get("redone", 0) + 1
                     ent["serial"] = self.serial
                     ent["created_group"] = len(after[0]["groups"]) > len(before[0]["groups"])
                     if ent["taint"]:
@@ -329,6 +332,12 @@ class World:
             self.changing_compared += 1
         if ent["created_group"]:
             ctx.count("compared_%s_of_group_creating_command" % op)
+        if op == "undo" and ent.get("redone"):
+            # the command was un-done, re-done (after the commands below it were un-done and re-done) and is un-done again
+            ctx.count("compared_undo_of_redone_command")
+            if ent["cmd"] in ("ApplySubsetState", "ApplyROI"):
+                ctx.count("compared_undo_of_redone_selection_command")
+                self.flags.add("undo_of_redone_selection_command")
         diff = diff_fields(after[0], want[0], ignore)
         if diff:
             # one violation per differing field, each with the structural features of that field only, so that two
@@ -336,7 +345,7 @@ class World:
             mc = mask_changes(after[0], want[0])
             n_want = len(want[0]["groups"])
             surplus = after[0]["groups"][n_want:]
-            base = {"user_changed_mode_or_edit_subset_since": ent["taint"]}
+            base = {"user_changed_mode_or_edit_subset_since": ent["taint"], "cmd_was_redone": bool(ent.get("redone"))}
             detail = {"expected": want[0], "observed": after[0], "mask_changes": mc[:6], "all_differing_fields": diff,
                       "do_changed_nothing_observable": not ent["changed"]}
             if "group_listing" in diff and "member_masks" in diff:
@@ -418,7 +427,15 @@ ENUM = {"quick": [("empty", 3, ALPHABET), ("data_only", 3, ALPHABET), ("one_grou
                   ("two_groups_both_edited_or", 4, [ALPHABET[i] for i in REDUCED])],
         "thorough": [(s, 4, ALPHABET) for s in SETUPS] + [("one_group_edited", 5, ALPHABET),
                                                          ("two_groups_one_edited_and", 6, [ALPHABET[i] for i in REDUCED])]}
-N_RANDOM = {"quick": 2000, "thorough": 60000}
+N_RANDOM = {"quick": 1600, "thorough": 60000}
+N_WALK = {"quick": 600, "thorough": 20000}
+# walk family: every 2- (3-) command prefix, then walk the whole stack down, up and down again
+WALK_CMDS = [["add", "d2"], ["rem", "d1"], ["apply", 4, None], ["apply", 2, "or"], ["roi", 0], ["roi", 1], ["add", "e1"],
+             ["rem", "d0"], ["apply", 1, "new"]]
+WALK_P2 = ["uurru", "uurruurr", "uruurru"]
+WALK_P3 = ["uuurrruuu", "uurruuurrru", "uuurruurrru"]
+WALK_SETUPS = ["one_group_edited", "two_groups_one_edited_and", "two_groups_both_edited_or", "one_group_not_edited"]
+WALK3 = {"quick": (2, 6, 2), "thorough": (4, 9, 3)}      # (set-ups, commands, patterns) used for 3-command prefixes
 N_BOUND = {"quick": 24, "thorough": 96}
 BLOCK = 20
 EXHAUSTIVE = {"quick": False, "thorough": False}
@@ -443,6 +460,10 @@ def _streams(tier, seed):
         out.append(st)
     out.append([["rand", i] for i in range(0, N_RANDOM[tier], BLOCK)])
     out.append([["bound", i] for i in range(N_BOUND[tier])])
+    out.append([["walk", i] for i in range(0, N_WALK[tier], BLOCK)])
+    out.append([["walk2", si, a] for si in range(len(WALK_SETUPS)) for a in range(len(WALK_CMDS))])
+    ns, nc, _ = WALK3[tier]
+    out.append([["walk3", si, a, b] for si in range(ns) for a in range(nc) for b in range(nc)])
     return out
 
 
@@ -486,6 +507,39 @@ def random_history(rng):
     return hist
 
 
+def walk_history(rng):
+    """do k commands (AddData/RemoveData mixed with selections), then walk the stack: undo j<=k, redo i<=j, undo again ...;
+    sometimes a new command in between.  Every undo/redo on the way is compared."""
+    names = ["d0", "d1", "d2", "e1"]
+    modes = [None, None, None, "replace", "and", "or", "xor", "andnot", "new"]
+
+    def command():
+        r = rng.random()
+        if r < 0.25:
+            return ["add", rng.choice(names)]
+        if r < 0.45:
+            return ["rem", rng.choice(names)]
+        if r < 0.8:
+            return ["apply", rng.randrange(len(STATE_VARIANTS)), rng.choice(modes)]
+        return ["roi", rng.randrange(len(ROIS))]
+    k = rng.randint(2, 6)
+    hist = [command() for _ in range(k)]
+    depth, undone = k, 0
+    for phase in range(rng.randint(3, 6)):
+        if phase % 2 == 0:
+            j = rng.randint(1, max(1, depth)) if rng.random() < 0.5 else depth
+            hist += [["undo"]] * j
+            depth, undone = max(0, depth - j), undone + j
+        else:
+            i = rng.randint(1, max(1, undone)) if rng.random() < 0.5 else undone
+            hist += [["redo"]] * i
+            depth, undone = depth + i, max(0, undone - i)
+            if rng.random() < 0.15:
+                hist.append(command())
+                depth, undone = depth + 1, 0
+    return hist
+
+
 def bound_history(rng):
     """More than MAX_UNDO commands, then undo until nothing is left (plus two more), with a redo/undo pair on the way."""
     n = MAX_UNDO + rng.randint(1, 6)
@@ -517,6 +571,23 @@ def run_case(ctx, case):
         for tail in itertools.product(range(len(alpha)), repeat=length - len(prefix)):
             hist = [alpha[k] for k in list(prefix) + list(tail)]
             run_history(ctx, setup_name, hist, "enumerated", use_app=(sum(prefix) + sum(tail)) % 2 == 1)
+    elif case[0] == "walk":
+        for _ in range(BLOCK):
+            setup_name = ctx.rng.choice(sorted(SETUPS) + WALK_SETUPS)
+            run_history(ctx, setup_name, walk_history(ctx.rng), "walk_random", use_app=ctx.rng.random() < 0.5)
+    elif case[0] == "walk2":
+        _, si, a = case
+        for b in range(len(WALK_CMDS)):
+            for pat in WALK_P2:
+                hist = [WALK_CMDS[a], WALK_CMDS[b]] + [["undo"] if c == "u" else ["redo"] for c in pat]
+                run_history(ctx, WALK_SETUPS[si], hist, "walk_enumerated", use_app=(a + b) % 2 == 1)
+    elif case[0] == "walk3":
+        _, si, a, b = case
+        ns, nc, npat = WALK3[ctx.tier]
+        for c3 in range(nc):
+            for pat in WALK_P3[:npat]:
+                hist = [WALK_CMDS[a], WALK_CMDS[b], WALK_CMDS[c3]] + [["undo"] if c == "u" else ["redo"] for c in pat]
+                run_history(ctx, WALK_SETUPS[si], hist, "walk_enumerated", use_app=(a + b + c3) % 2 == 1)
     elif case[0] == "rand":
         for _ in range(BLOCK):
             setup_name = ctx.rng.choice(sorted(SETUPS))
@@ -538,7 +609,9 @@ def floors(counters, tier):
             "compared_undo_ApplySubsetState": 700, "compared_undo_ApplyROI": 250, "compared_redo_ApplySubsetState": 100,
             "compared_undo_of_group_creating_command": 150, "histories_with_undo_depth_ge_2": 120,
             "histories_with_redo_after_undo": 200, "histories_that_filled_the_undo_history": 3, "histories_enumerated": 4000,
-            "histories_random": 500, "stack_model_comparisons": 15000, "dataset_order_compared": 1500}
+            "histories_random": 400, "stack_model_comparisons": 15000, "dataset_order_compared": 1500,
+            "histories_walk_enumerated": 400, "histories_walk_random": 120, "compared_undo_of_redone_command": 500,
+            "compared_undo_of_redone_selection_command": 200}
     if tier == "thorough":
         need = {k: 2 * v for k, v in need.items()}
         need["histories_that_filled_the_undo_history"] = 6
